@@ -1158,6 +1158,10 @@ func resolveInnerFilterDependencies(
 
 			childSelect.SkipResolve = true
 			newFields = append(newFields, childSelect)
+			// The keys of the filter object are visited in map order: a later key of the same object (e.g. an
+			// _and list whose elements name the same relation) must find this join instead of taking the
+			// now mapped relation field for a field that is already resolved.
+			resolvedFields = append(resolvedFields, childSelect)
 		}
 
 		childFilter, isChildFilter := value.(map[string]any)
